@@ -70,6 +70,7 @@ def family():
     add("fixed", _fixed(), "named")
     add("rec_empty", _rec("Empty", []), "named", "zero")
     add("rec_flat", _rec("Flat", [f("a", "int"), f("b", "long"), f("s", "string"), f("y", "bytes")]), "named", "rec")
+    add("err_type", dict(_rec("Err", [f("code", "int"), f("msg", "string")]), type="error"), "named", "rec")
     add("rec_floats", _rec("Fl", [f("x", "float"), f("d", "double"), f("t", "boolean"), f("n", "null")]), "rec")
     k = 0
     for otag, mk_o in outers():
